@@ -732,6 +732,16 @@ void rtosc::map_arg_vals(rtosc_arg_val_t* av, size_t n,
 {
     char mapbuf[20] = "map ";
 
+    //an array has one element type: symbols only if every element has one
+    if(n && av->type == 'a')
+        for(size_t i = 1; i < n; ++i)
+            if(av[i].type == 'i')
+            {
+                snprintf(mapbuf + 4, 16, "%d", av[i].val.i);
+                if(!meta[mapbuf])
+                    return;
+            }
+
     for(size_t i = 0; i < n; ++i, ++av)
     {
         if(av->type == 'i')
